@@ -1403,10 +1403,17 @@ impl<R: std::io::Read> Decoder<R> {
             .blocks
             .streaminfo()
             .total_samples
-            .map(|total| total.get() - self.current_sample)
+            .map(|total| total.get().saturating_sub(self.current_sample))
         {
             Some(0) => return Ok(None),
             Some(remaining) => FrameHeader::read(crc16_reader.by_ref(), self.blocks.streaminfo())
+                .and_then(|header| {
+                // a block may not run past the total indicated in STREAMINFO
+                let block_size = u16::from(header.block_size);
+                (u64::from(block_size) <= remaining)
+                    .then_some(header)
+                    .ok_or(Error::TooManySamples)
+            })
                 .and_then(|header| {
                 // only the last block in a stream may contain <= 14 samples
                 let block_size = u16::from(header.block_size);
